@@ -55,14 +55,19 @@ Definition is_inl {A B : Type} (x : A + B) : bool := match x with inl _ => true 
 Definition vpar (W : World) (v : Z) : N :=
   match parent_of (vbks W) v with Some p => enc p | None => enc v end.
 
-Definition g_vbk (W : World) (v : Z) : list ccmd := [AddRef (enc v) (vpar W v)].
+(** AddVbkBlock: a known block gets one more reference; an unknown one must connect to a known parent AND pass the
+    contextual header rule (otherwise: Poison) *)
+Definition c_vbk (W : World) (K : list Z) (v : Z) : ccmd :=
+  if RulesDefs.mem v K || hdr_ok W v then AddRef (enc v) (vpar W v) else Poison.
+Definition g_vbk (W : World) (K : list Z) (v : Z) : list ccmd := [c_vbk W K v].
 Definition g_vtb (W : World) (P : Params) (s : St) (w : Vtb) : list ccmd :=
   Need (enc (w_containing w)) :: (if is_inl (exec_vtb W P s w) then [] else [Poison]).
 Definition g_atv (W : World) (P : Params) (c : Z) (K : list Z) (t : Atv) : list ccmd :=
-  AddRef (enc (t_bop t)) (vpar W (t_bop t)) ::
+  c_vbk W K (t_bop t) ::
   (if is_inl (exec_atv W P c K t) then [AddEnd (enc (t_endorsed t)) (enc c) (enc (t_bop t))] else [Poison]).
 
-Definition tr_vbks (W : World) (vs : list Z) : list (list ccmd) := map (g_vbk W) vs.
+Fixpoint tr_vbks (W : World) (K : list Z) (vs : list Z) : list (list ccmd) :=
+  match vs with [] => [] | v :: r => g_vbk W K v :: tr_vbks W (add_known K v) r end.
 Fixpoint tr_vtbs (W : World) (P : Params) (s : St) (ws : list Vtb) : list (list ccmd) :=
   match ws with [] => [] | w :: r => g_vtb W P s w :: tr_vtbs W P (after_vtb s w) r end.
 Fixpoint tr_atvs (W : World) (P : Params) (c : Z) (K : list Z) (ts : list Atv) : list (list ccmd) :=
@@ -75,7 +80,7 @@ Definition dupb (s : St) (b : Body) : bool := existsb (fun i => pmem i (seen s))
 Definition tr (W : World) (P : Params) (s : St) (c : Z) (b : Body) : list (list ccmd) :=
   let K1 := known_after (vknown s) (bd_ctx b) in
   (if dupb s b then [[Poison]] else []) ++
-  tr_vbks W (bd_ctx b) ++
+  tr_vbks W (vknown s) (bd_ctx b) ++
   tr_vtbs W P (RulesDefs.mkSt K1 (brefs s) (vin s) (seen s)) (bd_vtbs b) ++
   tr_atvs W P c K1 (bd_atvs b).
 
@@ -125,22 +130,26 @@ Qed.
 
 (** * simulation, payload by payload *)
 Lemma sim_addref W pp K v : R pp K ->
-  cexec (AddRef (enc v) (vpar W v)) pp = if is_inl (exec_vbk W K v) then Some (IRef (enc v) :: pp) else None.
+  cexec (c_vbk W K v) pp = if is_inl (exec_vbk W K v) then Some (IRef (enc v) :: pp) else None.
 Proof.
-  intros H. cbn [cexec]. unfold exec_vbk, vpar. rewrite (R_mem pp K v H).
-  destruct (RulesDefs.mem v K) eqn:M0; [reflexivity|]. cbn [orb].
-  destruct (parent_of (vbks W) v) as [p|].
-  - rewrite (R_mem pp K p H). destruct (RulesDefs.mem p K); reflexivity.
-  - rewrite (R_mem pp K v H), M0. reflexivity.
+  intros H. unfold c_vbk, exec_vbk, vpar.
+  destruct (RulesDefs.mem v K) eqn:M0; cbn [orb].
+  - cbn [cexec]. rewrite (R_mem pp K v H), M0. reflexivity.
+  - destruct (hdr_ok W v) eqn:Hd.
+    + cbn [cexec]. rewrite (R_mem pp K v H), M0. cbn [orb].
+      destruct (parent_of (vbks W) v) as [p|].
+      * rewrite (R_mem pp K p H). destruct (RulesDefs.mem p K); reflexivity.
+      * rewrite (R_mem pp K v H), M0. reflexivity.
+    + cbn [cexec]. destruct (parent_of (vbks W) v) as [p|]; [destruct (RulesDefs.mem p K)|]; reflexivity.
 Qed.
 
 Lemma sim_vbks W : forall vs pp K, R pp K ->
   match exec_vbks W K vs with
-  | inl K' => exists pp', gsrun (tr_vbks W vs) pp = Some pp' /\ R pp' K'
-  | inr _ => gsrun (tr_vbks W vs) pp = None
+  | inl K' => exists pp', gsrun (tr_vbks W K vs) pp = Some pp' /\ R pp' K'
+  | inr _ => gsrun (tr_vbks W K vs) pp = None
   end.
 Proof.
-  induction vs as [|v r IH]; intros pp K H; cbn [exec_vbks tr_vbks map gsrun].
+  induction vs as [|v r IH]; intros pp K H; cbn [exec_vbks tr_vbks gsrun].
   - exists pp. auto.
   - unfold g_vbk. cbn [grun]. rewrite (sim_addref W pp K v H).
     destruct (exec_vbk W K v) as [K1|e] eqn:E; cbn [is_inl]; [|reflexivity].
